@@ -11,6 +11,32 @@ E3 = "exhaustive / preemption-bounded prange schedule enumeration on source-deri
 
 # id -> (built, category, technique, text, note, design_ref)
 CHECKS = {
+    "C16": (
+        True,
+        "exploration",
+        E1 + " with exact-rational membership oracle",
+        "Product of {extract_sphere, extract_box} x origin lattice x radius / per-axis size lattice {0,1/4,1/2,1,2} x (position unit, "
+        "argument unit) pairs x {Array, Quantity} on a dataset with a mesh group (positions, scalar and vector members), a "
+        "position-less group of the mesh's shape, particles with their own positions and a group of another shape, all rows on dyadic "
+        "lattices so that boundary membership (strict for spheres, inclusive for boxes) is exact; plus a loader-produced dataset. "
+        "Checked: exactly the expected rows per group, every member row-aligned with units kept, meta carried over, empty groups "
+        "omitted, groups without positions ignored, input dataset bit-identical afterwards.",
+        "3-D positions; dyadic coordinates.",
+        "DESIGN.md §3 C16",
+    ),
+    "C18": (
+        True,
+        "exploration",
+        E1,
+        "Every axis letter and axis triple in three capitalisations; every normal with components from a 19-value alphabet (0, small "
+        "integers, 1e+-8, 1e+-200, denormals) cubed minus zero, without and with length units; VectorBasis built from n and from "
+        "(n, exact perpendicular u) over 8^3-1 normals; 'top' and 'side' over 2-3 cell configurations on integer lattices (positions, "
+        "velocities, masses, three window forms incl. a shifted origin that leaves cells outside the sphere). Oracle: unit length, "
+        "mutual perpendicularity, n parallel to the request, u x v = n, n parallel to (or image plane containing) the independently "
+        "summed angular momentum.",
+        "Tolerances 1e-12 / 1e-10. Configurations with zero net angular momentum in the window are outside the statement.",
+        "DESIGN.md §3 C18",
+    ),
     "C17": (
         True,
         "model_checking",
